@@ -24,7 +24,8 @@ def desc(name):
 
 
 out = ["--------------------------- MODULE PayloadSchema ---------------------------",
-       "(* Field numbers, wire types and value kinds of the WhatsApp message payload   *)",
+       "(* Field numbers, wire types, value kinds and widths of the WhatsApp message    *)",
+       "(* payload                                                                       *)",
        "(* (e2e.proto as embedded in yowsup/layers/protocol_messages/proto/e2e_pb2.py  *)",
        "(* at the pinned commit).  Generated once by tools/gen_payload_schema.py from  *)",
        "(* the protobuf descriptor - not from the converter under test - and frozen.   *)",
@@ -38,7 +39,8 @@ for t in TYPES:
         sub = f.message_type.full_name.replace(".", "_") if f.type == FD.TYPE_MESSAGE else "-"
         rep = "TRUE" if f.label == FD.LABEL_REPEATED else "FALSE"
         ev = "<<%s>>" % ", ".join(str(v.number) for v in f.enum_type.values) if f.type == FD.TYPE_ENUM else "<<>>"
-        fs.append('[name |-> "%s", num |-> %d, wt |-> %d, kind |-> "%s", sub |-> "%s", rep |-> %s, ev |-> %s]' % (f.name, f.number, wt, kind, sub, rep, ev))
+        bits = 64 if f.type in (FD.TYPE_UINT64, FD.TYPE_INT64, FD.TYPE_FIXED64, FD.TYPE_DOUBLE) else (32 if f.type in (FD.TYPE_UINT32, FD.TYPE_INT32, FD.TYPE_FIXED32, FD.TYPE_FLOAT, FD.TYPE_ENUM) else 0)
+        fs.append('[name |-> "%s", num |-> %d, wt |-> %d, kind |-> "%s", bits |-> %d, sub |-> "%s", rep |-> %s, ev |-> %s]' % (f.name, f.number, wt, kind, bits, sub, rep, ev))
     rows.append('  %s |-> <<\n    %s >>' % (t.replace(".", "_"), ",\n    ".join(fs)))
 out.append(",\n".join(rows))
 out.append("]")
